@@ -133,6 +133,14 @@ M = [
     ("C13", "enum-continuation-regression", "dissect/cstruct/parser.py", '            if lines and (stripped[0] in "=+-*/%&|^<>()" or', '            if lines and (stripped[0] in "+-*/%&|^<>()" or'),
     ("C13", "struct-registered-late", "dissect/cstruct/parser.py", "        tokens.reset_flags()\n        return st", "        if register and len(names) > 1:\n            self.cstruct.typedefs.pop(names[-1], None)\n        tokens.reset_flags()\n        return st"),
     ("C13", "unknown-binds-to-uint8", "dissect/cstruct/cstruct.py", "            if type_name not in self.typedefs:\n                raise ResolveError(f\"Unknown type {name}\")", "            if type_name not in self.typedefs:\n                if type_name.lower() in self.typedefs and type_name != type_name.lower():\n                    type_name = type_name.lower()\n                    continue\n                raise ResolveError(f\"Unknown type {name}\")"),
+    ("C20", "fields-from-lookup", "dissect/cstruct/tools/stubgen.py", "    for field_name, field in structure.fields.items():", "    for field_name, field in structure.lookup.items():"),
+    ("C20", "alias-wrong-name", "dissect/cstruct/tools/stubgen.py", '            stub = f"{name}: TypeAlias = {typedef.__name__}"\n        elif issubclass(typedef, (types.Enum', '            stub = f"{typedef.__name__}: TypeAlias = {typedef.__name__}"\n        elif issubclass(typedef, (types.Enum'),
+    ("C20", "enum-members-drop-aliases", "dissect/cstruct/tools/stubgen.py", '    result.extend(f"    {key} = ..." for key in enum.__members__)', '    result.extend(f"    {key} = ..." for key in list(enum.__members__)[: max(1, len(enum.__members__) - (len(enum.__members__) > 2))])'),
+    ("C20", "typehint-ignores-nesting", "dissect/cstruct/tools/stubgen.py", '        return f"{module_prefix}Array[{generate_typehint(type_.type, prefix, module_prefix)}]"', '        t_ = type_.type\n        while issubclass(t_, types.Array):\n            t_ = t_.type\n        return f"{module_prefix}Array[{generate_typehint(t_, prefix, module_prefix)}]"'),
+    ("C20", "constants-skip-last", "dissect/cstruct/tools/stubgen.py", "    for name, value in cs.consts.items():\n        if name in empty_cs.consts:\n            continue", "    for name, value in list(cs.consts.items())[: max(1, len(cs.consts) - (len(cs.consts) > 3))]:\n        if name in empty_cs.consts:\n            continue"),
+    ("C20", "anon-enum-literal-regression", "dissect/cstruct/tools/stubgen.py", "        if isinstance(value, (types.Enum, types.Flag)):", "        if False:"),
+    ("C20", "pointer-hint-target-lost", "dissect/cstruct/tools/stubgen.py", '        return f"{module_prefix}Pointer[{generate_typehint(type_.type, prefix, module_prefix)}]"', '        return f"{module_prefix}Pointer[{prefix}uint8]"'),
+    ("C20", "builtin-alias-unprefixed-wrong", "dissect/cstruct/tools/stubgen.py", '            stub = f"{name}: TypeAlias = {cs_prefix}{typedef.__name__}"', '            stub = f"{name}: TypeAlias = {cs_prefix}{typedef.__name__ if typedef.size != 3 else \"uint32\"}"'),
     ("C06", "be-mask-off", "dissect/cstruct/bitbuffer.py", "v >>= self._remaining - bits", "v >>= max(0, self._remaining - bits - (1 if bits == 7 else 0))"),
     ("C06", "writer-shift", "dissect/cstruct/bitbuffer.py", "self._buffer |= data << (self._type.size * 8 - self._remaining)", "self._buffer |= data << (self._type.size * 8 - self._remaining) if bits != 5 else data << bits"),
     ("C06", "straddle-lt", "dissect/cstruct/types/structure.py", "                if bits_remaining < 0:\n                    raise ValueError", "                if bits_remaining < -1:\n                    raise ValueError"),
